@@ -276,6 +276,32 @@ def judge_case(case, V, raws=None):
     return None
 
 
+def param_magnitude_check(seed):
+    """a jump size that is a parameter (burst / batch size k): gridded exact runs on ONE model object before and after k is
+    changed; every pair of consecutive rows differs by k x (the counts of that interval).  -> None or what fails"""
+    import pg
+    m = pg.model(state=["A", "B"], param=["k", "g"],
+                 event=[pg.Event(rate="g", transition_list=[pg.Transition(destination="A", transition_type="B", magnitude="k")]),
+                        pg.Event(rate="g*A/(4+A)", transition_list=[pg.Transition(origin="A", destination="B", transition_type="T")])])
+    m.initial_values = ([0.0, 0.0], np.float64(0))
+    g = [0.0, 0.75, 1.5, 3.0]
+    for k in (2.0, 3.0, 5.0):
+        m.parameters = {"k": k, "g": 3.0}
+        np.random.seed(seed)
+        with pg.quiet(), watchdog():
+            out = m.solve_stochast(np.array(g), 2, exact=True, full_output=True)
+        for r in range(2):
+            X, J = np.asarray(out[0][r], dtype=float), np.asarray(out[1][r], dtype=float)
+            if X.shape != (len(g), 2) or J.shape != (len(g) - 1, 2):
+                return "k=%g run %d: shapes %s, %s for %d requested times" % (k, r, X.shape, J.shape, len(g))
+            V = np.array([[k, -1.0], [0.0, 1.0]])
+            for i in range(len(g) - 1):
+                if not np.array_equal(X[i + 1] - X[i], V @ J[i]):
+                    return ("jump size k set to %g on a model simulated before with another k: run %d interval %d rows differ by %s, "
+                            "V(k) x counts = %s (counts %s)" % (k, r, i, (X[i + 1] - X[i]).tolist(), (V @ J[i]).tolist(), J[i].tolist()))
+    return None
+
+
 # ------------------------------------------------------------------ case generation
 def make_grid(rng, raw, Tend, extinct):
     """grid over [0, Tend]; returns (grid, kind). Points are multiples of 1/64 (never an event time) except Tend"""
@@ -493,6 +519,14 @@ def run(ck):
         # one run per check with many events of one transition inside a single output interval (several hundred)
         if not many_done and spec["kind"] == "corpus":
             many_done = True
+            for sd in (1, 2):
+                try:
+                    bad = param_magnitude_check(sd)
+                except SimTimeout:
+                    bad = None
+                ck.case(dict(kind="param-magnitude", seed=sd), nontrivial=True)
+                if bad:
+                    ck.violation("rows-not-V-times-counts/parameter-jump-size", bad, dict(kind="param-magnitude", seed=sd))
             spm = dict(nS=2, x0=[700, 0], kind="corpus", events=[dict(c="1", form=["lin", 0, None], trans=[dict(tt="T", o=0, d=1, mag=1)])])
             cm = dict(spec=spm, seed=3, grid=[0.0, 2.0, 2.5, 8.0], kind="array", exact=True, n=1, pre_tau=None)
             try:
@@ -588,6 +622,8 @@ def shrink(case, V, cls):
 
 def replay(ck, data):
     case = dict(data["input"])
+    if case.get("kind") == "param-magnitude":
+        return param_magnitude_check(case["seed"])
     m = build(case["spec"])
     case["_model"] = m
     V = [[int(v) for v in row] for row in np.array(m.get_StateChangeMatrix().tolist(), dtype=float)]
